@@ -256,9 +256,19 @@ func (b *bb) scenarioPrio1() {
 	mode := []string{"graceful", "stop", "cancel", "stop-busy", "graceful+stop", "graceful+cancel", "stop-noread"}[b.cycle("prio1", 7)]
 	inputs := map[uint]<-chan int{}
 	chans := map[uint]chan int{}
+	heavy := mode == "stop-noread" && b.thorough
 	for _, p := range c.prios {
-		ch := make(chan int, c.caps[p])
+		n := c.caps[p]
+		if heavy {
+			// thorough tier: a backlog of a million items per input, kept full by several
+			// producers - a loop that goes on receiving after Stop does not run dry
+			n = 1 << 20
+		}
+		ch := make(chan int, n)
 		chans[p], inputs[p] = ch, ch
+		for i := 0; heavy && i < n; i++ {
+			ch <- int(p)*100000 - n + i
+		}
 	}
 	dv := p1.RateDivider
 	if c.fair {
@@ -277,10 +287,27 @@ func (b *bb) scenarioPrio1() {
 	stopProd := make(chan struct{})
 	var produced sync.WaitGroup
 	for _, p := range c.prios {
+		for k := 0; heavy && k < 7; k++ {
+			produced.Add(1)
+			go func(p uint) {
+				defer produced.Done()
+				for {
+					select {
+					case chans[p] <- -1:
+					case <-stopProd:
+						return
+					}
+				}
+			}(p)
+		}
 		produced.Add(1)
 		go func(p uint) {
 			defer produced.Done()
-			defer close(chans[p])
+			defer func() {
+				if !heavy { // (other producers may still be sending)
+					close(chans[p])
+				}
+			}()
 			// (stop-noread: the producers never run dry)
 			for i := 0; mode == "stop-noread" || i < c.n[p]; i++ {
 				select {
